@@ -96,6 +96,65 @@ func checkC18(c *Ctx) {
 			}
 		}
 	}
+	// RFC 9474 5: the PSS variants use a salt of the hash length (48), the PSSZero variants an empty salt -
+	// decided per variant constant by constant propagation through NewVerifier
+	if nv := p.Func(br, "", "NewVerifier"); nv == nil {
+		c.undecided("C18.pss", "NewVerifier: salt length per variant", "anchor does not resolve", "")
+	} else {
+		for _, t := range []struct {
+			v    int64
+			want string
+			name string
+		}{{0, "48", "RSABSSA-SHA384-PSS-Randomized"}, {1, "0", "RSABSSA-SHA384-PSSZero-Randomized"}, {2, "48", "RSABSSA-SHA384-PSS-Deterministic"}, {3, "0", "RSABSSA-SHA384-PSSZero-Deterministic"}} {
+			construct := fname(nv) + ": " + t.name + " verifies (and signs) with a salt of " + t.want + " bytes"
+			q := &GuardQuery{P: p, Root: nv, MaxDepth: 1}
+			q.Args = make([]lat, len(nv.Params))
+			for i := range q.Args {
+				q.Args[i] = latTop
+			}
+			vi := paramIdx(nv, "v")
+			if vi < 0 {
+				c.undecided("C18.pss", construct, "parameter v does not exist", p.fnPos(nv))
+				continue
+			}
+			q.Args[vi] = latInt(t.v)
+			var got []string
+			q.ObserveStore = func(in *ssa.Function, st *ssa.Store, get func(ssa.Value) lat) {
+				if in != nv {
+					return
+				}
+				if fa, ok := st.Addr.(*ssa.FieldAddr); ok && fieldName(fa) == "SaltLength" {
+					l := get(st.Val)
+					if l.k == kConst {
+						got = append(got, l.c.ExactString())
+					} else if cl, ok := st.Val.(*ssa.Call); ok && p.staticCalleeName(&cl.Call) == "(crypto.Hash).Size" && len(cl.Call.Args) == 1 {
+						// crypto.Hash.Size of a constant hash identifier: the digest sizes of the standard library
+						sizes := map[string]string{"4": "28", "5": "32", "6": "48", "7": "64"}
+						if h := get(cl.Call.Args[0]); h.k == kConst && sizes[h.c.ExactString()] != "" {
+							got = append(got, sizes[h.c.ExactString()])
+						} else {
+							got = append(got, "?")
+						}
+					} else {
+						got = append(got, "?")
+					}
+				}
+			}
+			runGuard(q)
+			got = uniq(got)
+			switch {
+			case len(got) == 0:
+				c.bad("C18.pss", construct, "no verifier is built for this variant", p.fnPos(nv))
+			case len(got) == 1 && got[0] == t.want:
+				c.ok("C18.pss", construct, "SaltLength = "+got[0], p.fnPos(nv))
+			default:
+				c.bad("C18.pss", construct, "SaltLength is "+strings.Join(got, " / ")+", RFC 9474 says "+t.want, p.fnPos(nv))
+			}
+		}
+	}
+	// crypto/rsa.VerifyPSS with SaltLength 0 (PSSSaltLengthAuto, what the PSSZero verifiers carry) accepts a
+	// salt of any length: the delimiter is searched for
+	c.reachCountUnder(p, "C18.pss", "with sLen = PSSSaltLengthAuto the 0x01 delimiter is searched for (a salt of any length is accepted, as in crypto/rsa)", p.Func(cm, "", "emsaPSSVerify"), map[string]lat{"sLen": latInt(0)}, nil, "bytes.IndexByte", 1)
 	// the signer hands out a blind signature of exactly the modulus length (Finalize refuses any other); the
 	// byte size of a key is ceil(bits / 8)
 	for _, pk := range []string{br, pb} {
